@@ -16,6 +16,13 @@ __all__ = [
 ]
 
 
+def _py_str_body(text):
+    """text as it must appear between the single quotes of a python string literal"""
+    if text is None:
+        return text
+    return text.replace('\\', '\\\\').replace("'", "\\'")
+
+
 @attrs.define(auto_attribs=True)
 class EnumVal:
     name: str
@@ -30,13 +37,14 @@ class EnumDef:
     values: list[EnumVal] = attrs.field(factory=list)
 
     def get_codegen_context(self, _definitions: 'Definitions'):
+        quote = TypeDefinition.Definitions[self.type].hint == 'str'
         return {
             'name': self.name,
-            'quote': TypeDefinition.Definitions[self.type].hint == 'str',
+            'quote': quote,
             'values': [
                 {
                     'name': field.name,
-                    'value': field.value
+                    'value': _py_str_body(field.value) if quote else field.value
                 } for field in self.values
             ]
         }
@@ -106,7 +114,7 @@ class FieldDef:
         context['hint'] = hint
         context['quote'] = 'Char' in type_ or 'String' in type_
         context['default'] = self.default is not None
-        context['default_value'] = self.default
+        context['default_value'] = _py_str_body(self.default) if context['quote'] else self.default
 
         return context
 
